@@ -25,9 +25,12 @@ def outside(v, lo, hi):
 
 
 def ladder(lo, hi):
-    """min, max, mid, min-ulp, max+ulp, far below, far above, NaN."""
-    return [lo, hi, (lo + hi) / 2, math.nextafter(lo, -math.inf), math.nextafter(hi, math.inf),
-            lo - 1000.5, hi + 1000.5, NAN]
+    """min, max, mid, min-ulp, max+ulp, far below, far above, NaN, and 0 (the initial value of every tracked quantity)."""
+    out = [lo, hi, (lo + hi) / 2, math.nextafter(lo, -math.inf), math.nextafter(hi, math.inf),
+           lo - 1000.5, hi + 1000.5, NAN]
+    if 0 not in out:
+        out.append(0)
+    return out
 
 
 class C03System(BuilderSystem):
@@ -51,6 +54,14 @@ class C03System(BuilderSystem):
         st.g.set_resolution(1.0)
 
     # ---- alphabet ----------------------------------------------------
+    def scalar_ladder(self, st, name):
+        vals = ladder(*self.bounds0[name])
+        if self.rebound and self.rebound[0] == name:
+            for v in ladder(self.rebound[1], self.rebound[2]):
+                if v not in vals:
+                    vals.append(v)
+        return vals
+
     def ops(self, st):
         ops = []
         fam = self.families
@@ -85,14 +96,12 @@ class C03System(BuilderSystem):
             ops.append(["trace.polyline", [[[1, 0], [0, 9], [0, -9]] if rel else [[p.x + 1, p.y], [p.x + 1, p.y + 9], [p.x + 1, p.y]]], {}])
             ops.append(["trace.arc_radius", [[1, 0] if rel else [p.x + 1, p.y], -4.0], {}])
         if "feed-rate" in fam:
-            lo, hi = st.bounds["feed-rate"]
-            for v in ladder(lo, hi):
+            for v in self.scalar_ladder(st, "feed-rate"):
                 ops += [["set_feed_rate", [v]], ["move", [], {"x": 1, "F": v}], ["rapid", [], {"y": 1, "f": v}],
                         ["probe", ["away"], {"z": 0, "F": v}], ["move_absolute", [], {"x": 2, "F": v}],
                         ["rapid_absolute", [], {"x": 2, "F": v}]]
         if "tool-power" in fam:
-            lo, hi = st.bounds["tool-power"]
-            for v in ladder(lo, hi):
+            for v in self.scalar_ladder(st, "tool-power"):
                 ops += [["set_tool_power", [v]], ["tool_on", ["clockwise", v]], ["power_on", ["dynamic", v]],
                         ["move", [], {"x": 1, "S": v}], ["rapid", [], {"x": 2, "s": v}], ["probe", ["towards"], {"z": 0, "S": v}],
                         ["move_absolute", [], {"y": 1, "S": v}]]
@@ -104,8 +113,7 @@ class C03System(BuilderSystem):
         for t in ("bed", "hotend", "chamber"):
             name = f"{t}-temperature"
             if name in fam:
-                lo, hi = st.bounds[name]
-                for v in ladder(lo, hi):
+                for v in self.scalar_ladder(st, name):
                     ops += [[f"set_{t}_temperature", [v]], ["halt", [f"wait-for-{t}"], {"S": v}],
                             ["halt", [f"wait-for-{t}"], {"R": v}], ["halt", [f"wait-for-{t}"], {"s": v}]]
         if self.rebound and self.rebound[0] in st.bounds and st.bounds[self.rebound[0]] != (self.rebound[1], self.rebound[2]):
@@ -215,15 +223,18 @@ class C03System(BuilderSystem):
 
 BOX = ((0, 0, -1), (4, 4, 1))
 R = (10, 100)
-ALL = {"axes": BOX, "feed-rate": R, "tool-power": R, "tool-number": (2, 5), "bed-temperature": R,
-       "hotend-temperature": R, "chamber-temperature": R}
+# every bounded quantity gets its own range, disjoint from the others where possible, so that a validator
+# consulting the wrong property's bounds accepts an out-of-range value (or rejects everything)
+ALL = {"axes": BOX, "feed-rate": (10, 100), "tool-power": (200, 300), "tool-number": (2, 5), "bed-temperature": (40, 60),
+       "hotend-temperature": (150, 250), "chamber-temperature": (20, 30)}
 
 
 def systems(tier):
     q = [
         ("axes", C03System("axes", {"axes": BOX}, ["axes"], rebound=("axes", (1, 1, -1), (3, 3, 0.5))), 3),
-        ("feed", C03System("feed", {"feed-rate": R}, ["feed-rate"]), 3),
-        ("power", C03System("power", {"tool-power": R}, ["tool-power"]), 3),
+        ("feed", C03System("feed", {"feed-rate": R}, ["feed-rate"], rebound=("feed-rate", 20, 50)), 3),
+        ("power", C03System("power", {"tool-power": R}, ["tool-power"], rebound=("tool-power", 0, 50)), 3),
+        ("feed+power", C03System("feed+power", {"feed-rate": (10, 100), "tool-power": (200, 300)}, ["feed-rate", "tool-power"]), 2),
         ("temps+tool", C03System("temps+tool", {k: ALL[k] for k in ("tool-number", "bed-temperature", "hotend-temperature", "chamber-temperature")},
                                  ["tool-number", "bed", "bed-temperature", "hotend-temperature", "chamber-temperature"]), 2),
     ]
